@@ -2,7 +2,7 @@
 //! scripted raw clients and a gated handler. After every op all spawned tasks run until stalled
 //! (paused clock), so each op is atomic and deterministic.
 //!
-//! line: `srv <h1|auto> <graceful 0|1> <acc raw|wrapped> <makefail k|-> ; <op> ; …`
+//! line: `srv <h1|auto> <graceful 0|1|2 (2: the completed serving future is kept alive)> <acc raw|wrapped> <makefail k|-> ; <op> ; …`
 //!   op: `conn i` | `connx i` (connect request queued, then the client gives up before it is accepted)
 //!       | `send i full|half|rest|garbage|prihalf|pri` | `gate i` | `close i` | `signal` | `droplistener`
 //!       | `sigconn i` / `sigdrop`: the signal resolves and a connect request / loss of the listener become ready before the server runs again
@@ -95,7 +95,10 @@ async fn run_case(cfg: &[&str], ops: &[Vec<&str>]) -> String {
     }
     let (sig_tx, sig_rx) = tokio::sync::oneshot::channel::<()>();
     let mut sig_tx = Some(sig_tx);
-    let graceful = cfg[1] == "1";
+    // graceful: 0 = plain `Serving`; 1 = with_graceful_shutdown, the future is awaited by value (dropped when it completes);
+    // 2 = with_graceful_shutdown, the completed future is kept alive (nothing may depend on it being dropped)
+    let graceful = cfg[1] != "0";
+    let hold = cfg[1] == "2";
     macro_rules! finish {
         ($srv:expr) => {{
             let srv = $srv;
@@ -112,9 +115,12 @@ async fn run_case(cfg: &[&str], ops: &[Vec<&str>]) -> String {
     let result: Arc<Mutex<Option<String>>> = Default::default();
     let r2 = result.clone();
     let server_task = tokio::spawn(async move {
-        let r = serve.await;
+        let mut serve = serve;
+        let r = (&mut serve).await;
         *r2.lock().unwrap() = Some(match r { Ok(()) => "OK".into(), Err(hyperdriver::server::ServerError::Accept(_)) => "EA".into(),
             Err(hyperdriver::server::ServerError::MakeService(_)) => "EM".into(), Err(_) => "EO".into() });
+        if hold { std::future::pending::<()>().await; }
+        drop(serve);
     });
     settle().await;
     let nclients = 4;
@@ -221,7 +227,7 @@ pub fn run(toks: &[&str]) -> String {
 
 pub fn gen(r: &mut Rng, _i: u64) -> String {
     let proto = if r.chance(1, 2) { "h1" } else { "auto" };
-    let graceful = r.chance(3, 4) as u8;
+    let graceful = match r.below(8) { 0 | 1 => 0, 2 | 3 | 4 => 1, _ => 2 };
     let acc = if r.chance(1, 2) { "raw" } else { "wrapped" };
     let makefail = if r.chance(1, 8) { r.below(3).to_string() } else { "-".to_string() };
     // the generator tracks the obvious client state so that most ops are meaningful
